@@ -14,6 +14,7 @@ import hashlib
 import json
 import os
 import re
+import time
 import string
 
 from vlib.core import diff_lines
@@ -708,7 +709,11 @@ def load_corpus():
 def check_ops(ctx, bins, ops, label=""):
     impl0 = run_impl(ctx, bins, ops)
     ops, impl = patch_oh(ops, impl0)
-    model = ctx.lean_run(ops)
+    path = getattr(ctx, "_c31_driver", None)
+    if path is None:  # built once per run (lake is serialised between all checks by a lock)
+        path = ctx.lean_driver_build()
+        ctx._c31_driver = path or False
+    model = ctx.run_lines([path], ops) if path else None
     model_ok = model is not None
     model = model or []
     co = ConnOracle()
@@ -771,7 +776,9 @@ def run(ctx):
         "base64.StdEncoding.Decode fast paths behave like successive quanta (sampled differentially)",
         "network write errors / write-lock time-outs of WriteControl are outside the model",
     ]
+    t0 = time.time()
     proofs_ok = ctx.lean_obligations()
+    ctx.log(f"lean obligations done ({time.time() - t0:.1f}s incl. waiting for the shared lake lock)")
     bins = {
         "ws": ctx.go_test_binary("internal/websocket", ["props/C31/harness/internal__websocket/zz_verif_c31_test.go"]),
         "root": ctx.go_test_binary(".", ["props/C31/harness/root/zz_verif_c31_test.go"]),
